@@ -6,7 +6,7 @@
    is a static key or a loaded address). *)
 From Coq Require Import List NArith Bool Sorting.Sorted.
 Import ListNotations.
-Require Import YF.C19_Stream YF.C19_Flush.
+Require Import YF.C19_Stream YF.C19_Flush YF.C19_Prog YF.Generated.FilterProgC19 YF.C19_ProgProof.
 
 (* StreamTransactions, scan path: for every archive, range and filter, the stream is exactly the archived
    transactions of the range that satisfy the filter, in archive (ascending slot, position) order;
@@ -39,6 +39,19 @@ Theorem C19_index_path_agrees_with_scan : forall ar lo hi f limit,
   (forall a, In a (f_include f) -> length (filter (fun t => mentions t a) all) <= limit) ->
   stream_txs_indexed true limit all lo hi f = stream_txs_scan true true ar lo hi (Some f).
 Proof. exact indexed_agrees_with_scan. Qed.
+
+(* THE TIE TO THE SOURCE for the predicate: coq/Generated/FilterProgC19.v is the Go closure `filterOutTxn` of
+   grpc-server.go:processSlotTransactions, translated statement by statement by gen/c19.go on every check into the
+   guard language of C19_Prog (early returns, optional flags, loops over the account lists; dereferencing an absent
+   flag or a member of a nil filter is a Panic). For EVERY filter (or none), EVERY transaction and both stream paths
+   the translated program returns — never panics — exactly the specification: keep, with the "any included account"
+   clause left to the address index when one serves the stream. Both send sites apply it with the same polarity. *)
+Theorem C19_translated_predicate_is_the_specification : forall fo idx t,
+  run filter_prog_c19 {| e_filter := fo; e_indexed := idx; e_tx := t |} =
+  Return (spec {| e_filter := fo; e_indexed := idx; e_tx := t |}).
+Proof. exact filter_prog_is_spec. Qed.
+Theorem C19_predicate_guards_both_send_sites : filter_send_sites_c19 = 2.
+Proof. exact filter_send_sites. Qed.
 
 (* the ordered buffer's flush: visiting the held slots in ascending order (the loop after /repo d26d291) sends
    exactly what walking every slot number of the window sends, in the same order — both are the model's buf_flush —
@@ -76,6 +89,8 @@ Print Assumptions C19_transactions_scan.
 Print Assumptions C19_blocks.
 Print Assumptions C19_blocks_ascending_in_range.
 Print Assumptions C19_index_path_agrees_with_scan.
+Print Assumptions C19_translated_predicate_is_the_specification.
+Print Assumptions C19_predicate_guards_both_send_sites.
 Print Assumptions C19_flush_by_held_slots_is_flush_by_walk.
 Print Assumptions C19_flush_visits_at_most_the_buffer.
 Print Assumptions C19_inverted_polarity_refuted.
